@@ -38,6 +38,8 @@ func (o hop) String() string {
 		return fmt.Sprintf("Set(%v)", o.Keys)
 	case 'O':
 		return fmt.Sprintf("Reorder(dir=%d)", o.Dir)
+	case 'X':
+		return "Peek(-1), Remove(-1) (documented panics, recovered)"
 	case 'C':
 		return "Clear"
 	case 'N':
@@ -85,6 +87,7 @@ type heapOpts struct {
 	checkPos   bool // C06: reported positions
 	fixParent  bool // counterfactual run
 	light      bool // large histories: the O(n) parts of the per-step check run every 37th step (and on every Pop/Remove result)
+	sparse     bool // nothing is read between operations (not even Front) except every 53rd step; only operation results are observed
 }
 
 type heapStats struct {
@@ -146,6 +149,9 @@ func heapRun(c *fw.Ctx, ops []hop, opt heapOpts) (div *heapDiv, st heapStats) {
 	check := func() *heapDiv {
 		if q.Len() != len(ref) || q.IsEmpty() != (len(ref) == 0) {
 			return fail("Len=%d IsEmpty=%v with %d elements held", q.Len(), q.IsEmpty(), len(ref))
+		}
+		if opt.sparse && step%53 != 0 && step < len(ops) {
+			return nil
 		}
 		if opt.light && step%37 != 0 {
 			f := q.Front()
@@ -325,6 +331,12 @@ func heapRun(c *fw.Ctx, ops []hop, opt heapOpts) (div *heapDiv, st heapStats) {
 			st.reorders++
 			c.Call("heapq.Reorder(dir=%d) len=%d", dir, len(ref))
 			q.Reorder(cmp)
+		case 'X':
+			for _, f := range []func(){func() { q.Peek(-1) }, func() { q.Remove(-1) }} {
+				if p, _ := fw.Panics(f); !p {
+					return fail("Peek(-1)/Remove(-1) did not panic as documented"), st
+				}
+			}
 		case 'C':
 			q.Clear()
 			ref = map[int]Elem{}
@@ -395,7 +407,30 @@ func heapRun(c *fw.Ctx, ops []hop, opt heapOpts) (div *heapDiv, st heapStats) {
 func heapGenOps(r *rand.Rand, n int, keyRange int, byPos bool) []hop {
 	var ops []hop
 	size := 0
-	key := func() int { return r.IntN(keyRange) }
+	// key value patterns: uniform, centred on zero (negative keys), ascending,
+	// descending, periodic, and "previous key plus a constant"
+	pattern := r.IntN(7)
+	seq, last := 0, 0
+	key := func() int {
+		seq++
+		switch pattern {
+		case 1:
+			return r.IntN(keyRange) - keyRange/2
+		case 2:
+			return seq
+		case 3:
+			return -seq
+		case 4:
+			return (seq * 7) % 5
+		case 5:
+			last += 3
+			if r.IntN(8) == 0 {
+				last = r.IntN(keyRange) - keyRange/2
+			}
+			return last
+		}
+		return r.IntN(keyRange)
+	}
 	if r.IntN(3) == 0 {
 		m := r.IntN(40)
 		ks := make([]int, m)
@@ -462,6 +497,8 @@ func heapGenOps(r *rand.Rand, n int, keyRange int, byPos bool) []hop {
 			if r.IntN(4) == 0 {
 				ops = append(ops, hop{Op: 'C'})
 				size = 0
+			} else {
+				ops = append(ops, hop{Op: 'X'}) // a documented panic (negative offset), recovered by the caller
 			}
 		}
 	}
